@@ -21,7 +21,19 @@ def run_check(pid, tier, repo_root, write_evidence=True):
     try:
         repo = Repo(repo_root)
         world = World(repo)
-        mod.check(run, repo, world)
+        try:
+            mod.check(run, repo, world)
+        except AnalysisError as e:
+            # violations already established stay established: report them
+            # (exit 1) and say that the rest of the analysis did not finish
+            if not _new_findings(run):
+                raise
+            run.deferred.append(str(e))
+        if run.deferred:
+            if not _new_findings(run):
+                raise AnalysisError(run.deferred[0])
+            for d in run.deferred:
+                print("   ANALYSIS-INCOMPLETE property=%s %s" % (pid, d))
         if tier == "thorough" and not os.environ.get("DALINT_NO_SELFTEST"):
             from .core import load_known
             from .selftest import selftest
@@ -40,6 +52,12 @@ def run_check(pid, tier, repo_root, write_evidence=True):
         print("ANALYSIS-ERROR property=%s internal error in the analyser "
               "(traceback above)" % pid)
         return 2
+
+
+def _new_findings(run):
+    from .core import load_known
+    kset = {(k["property"], k["key"]) for k in load_known().get("known", [])}
+    return [f for f in run.findings if (run.pid, f.key) not in kset]
 
 
 def main(argv=None):
